@@ -108,8 +108,11 @@ def match_known(mod, known, case, vio):
 STDERR_CAPTURE = [None]
 
 
-def run_forked(mod, case):
+def run_forked(mod, case, timeout=None):
     """execute run_case in a forked child so that a native crash becomes an exception"""
+    first_attempt = timeout is None
+    if timeout is None:
+        timeout = float(os.environ.get("VERIF_CASE_TIMEOUT", getattr(mod, "CASE_TIMEOUT", 120)))
     r, w = os.pipe()
     errpath = STDERR_CAPTURE[0]
     pid = os.fork()
@@ -135,7 +138,7 @@ def run_forked(mod, case):
         os._exit(code)
     os.close(w)
     data = b""
-    deadline = time.time() + float(os.environ.get("VERIF_CASE_TIMEOUT", "120"))
+    deadline = time.time() + timeout
     import select
     while True:
         left = deadline - time.time()
@@ -143,6 +146,13 @@ def run_forked(mod, case):
             os.kill(pid, signal.SIGKILL)
             os.waitpid(pid, 0)
             os.close(r)
+            if first_attempt and getattr(mod, "HANG_RETRY_FACTOR", 0):
+                # a hang candidate is re-run once with a larger budget before it is reported; if it then returns it was
+                # slow, not hung (tagged, so that the evidence shows it)
+                res = run_forked(mod, case, timeout * mod.HANG_RETRY_FACTOR)
+                if isinstance(res, dict):
+                    res.setdefault("tags", []).append("watchdog:slow_but_returned")
+                return res
             raise Violation("hang:" + getattr(mod, "case_label", lambda c: "")(case), "case did not return within the watchdog", clause="C12-hang")
         ready, _, _ = select.select([r], [], [], min(left, 1.0))
         if ready:
